@@ -16,7 +16,9 @@ from .. import core, gen, obs, ser
 
 EXTRA = ["é x", "日本", "007", "1e3", "a: b", "it's", 'q"d', 2 ** 63 - 1, -(2 ** 63), 1e308, 5e-324, -0.0, -1.5, "null", "True", "~", " lead", "trail ", "a#b",
          "a #b", "-dash", "[b]", "{c}", "a,b", "@at", "%pc", "&amp", "*star", "!bang", "|pipe", ">gt", "?q", "", "0x10", "1_000", "yes", "No", ".5", "5.", "inf", "NaN", "+1"]
-SCALARS = gen.SCALARS + EXTRA
+# strings that the YAML block emitter writes as literal / folded block scalars (multi-line, trailing newline, number- and keyword-looking single lines)
+BLOCKY = ["line one\nline two\n", "20240117", "false", "a\nb", "x\n", "multi\n\nline", "null", "1.5", "~", "k: v\n- x", "# not a comment\n"]
+SCALARS = gen.SCALARS + EXTRA + BLOCKY
 
 TAGS = {"Ref": "Ref", "GetAtt": "Fn::GetAtt", "Base64": "Fn::Base64", "Sub": "Fn::Sub", "GetAZs": "Fn::GetAZs", "ImportValue": "Fn::ImportValue",
         "Condition": "Condition", "RefAll": "Fn::RefAll", "Select": "Fn::Select", "Split": "Fn::Split", "Join": "Fn::Join", "FindInMap": "Fn::FindInMap",
